@@ -14,6 +14,36 @@ def replay(spec):
     from bioscrape.types import Model
     from bioscrape.simulator import ModelCSimInterface, SafeModelCSimInterface
     vals = unfrac(spec["values"])
+    if spec.get("kind") == "massaction_class":
+        from bioscrape.types import MassActionPropensity
+        reactants = spec["reactants"]
+        P = MassActionPropensity()
+        P.initialize({"k": "kp", "species": "*".join(reactants)}, {sp: i for i, sp in enumerate(SPECIES)}, {"kp": 0})
+        bad = []
+        points = [(float(vals["k0"]), float(vals["V"]), [float(vals["s_" + sp]) for sp in SPECIES])]
+        points += [(0.37, 0.25, [3.0, 2.0, 5.0]), (0.37, 1.7, [3.0, 2.0, 5.0]), (2.0, 4.0, [1.0, 6.0, 2.0])]
+        for k, V, st in points:
+            state = dict(zip(SPECIES, st))
+            mult = {}
+            for r in reactants:
+                mult[r] = mult.get(r, 0) + 1
+            for mode in ("deterministic", "volume", "stochastic", "stochastic_volume"):
+                exp = k
+                for sp, m in mult.items():
+                    if mode.startswith("stochastic"):
+                        for j in range(m):
+                            exp *= max(state[sp] - j, 0.0)
+                    else:
+                        exp *= state[sp] ** m
+                if mode.endswith("volume"):
+                    exp = exp * V if len(reactants) == 0 else exp / V ** (len(reactants) - 1)
+                sv, pv = np.array(st, dtype=float), np.array([k], dtype=float)
+                obs = {"deterministic": lambda: P.py_get_propensity(sv, pv, 0.0), "volume": lambda: P.py_get_volume_propensity(sv, pv, V, 0.0),
+                       "stochastic": lambda: P.py_get_stochastic_propensity(sv, pv, 0.0),
+                       "stochastic_volume": lambda: P.py_get_stochastic_volume_propensity(sv, pv, V, 0.0)}[mode]()
+                if not abs(obs - exp) <= 1e-9 * max(1.0, abs(exp)):
+                    bad.append("MassActionPropensity[%s] %s at k=%s V=%s state=%s: %r, closed form %r" % ("*".join(reactants) or "0", mode, k, V, st, obs, exp))
+        return {"reproduced": bool(bad), "observed": bad[:3], "expected": "closed form"}
     V, t = float(vals["V"]), float(vals["t"])
     mode, route = spec["mode"], spec["route"]
     ri = 0
